@@ -41,8 +41,10 @@ CLAIMS['C01'] = dict(
          "obligation on the real AST of the re-check loop body of find_pattern_in_structure (geometry uninterpreted): the good-list grows "
          "only by the current ordering and only if np.allclose(candidate, q.apply(P') + candidate[axis point], rtol=0, atol=<requested "
          "atol>) returned True, and the rotation stored for the ordering is that same q. With the assumed contracts of np.allclose and of "
-         "scipy rotations (proper) this is 'one proper rotation plus translation within the absolute tolerance'. Index validity, element "
-         "equality, lattice offsets and distinctness are evaluated as run-time postconditions on ~390 planted searches (bounded).",
+         "scipy rotations (proper) this is 'one proper rotation plus translation within the absolute tolerance'. helpers.atoms_of_type is proved "
+         "to return exactly the indices whose element equals the wanted one, and the search takes its start atoms from it with the first pattern "
+         "element. Index validity, element equality of the other atoms, lattice offsets and distinctness are evaluated as run-time postconditions "
+         "on ~1 000 planted searches (bounded).",
     note="Assumed: np.allclose contract, properness of scipy Rotation.apply, deepcopy; clauses (1),(2),(4) of DESIGN C01 are bounded only "
          "(the five search loops are not cut); bridge lemma G1 (distinct images) assumed.",
     technique='contract-based deductive verification (block contract / guard obligation via own VC generator, z3) + bounded run-time postconditions')
@@ -126,8 +128,10 @@ CLAIMS['C16'] = dict(
          "length, unique atom ids, every bond reference naming an atom): proved that the constructor receives one element and one x3/y3/z3 "
          "triple per atom entry in document order, one bond per bond entry joining the document positions of the referenced ids (dict "
          "comprehension and lookups modelled with witness functions), one bond type per bond, and that no well-formed document makes it "
-         "raise -- in particular zero bonds (the pre-fix zip(*[]) unpack is refuted with the replayed input n_bonds=0). The real XML parser, "
-         "path vs open file and id spellings are exercised on 160 generated documents.",
+         "raise -- in particular zero bonds (the pre-fix zip(*[]) unpack is refuted with the replayed input n_bonds=0). Atoms.load's format "
+         "dispatch is proved as a call-trace contract: a file object needs a type, an explicit type decides before the extension, load_cml gets the "
+         "file object or the path, keywords are passed through. The real XML parser, id spellings (also bare numbers), molecule-sized and all-zero "
+         "geometries and verbose loads are exercised on ~260 generated documents.",
     note="Assumed: ElementTree returns elements in document order; float() and str.split() uninterpreted; np.array([x,y,z]).T stacks columns.",
     technique='contract-based deductive verification against an abstract parser result (own VC generator, z3 E-matching) + bounded generated documents')
 CLAIMS['C17'] = dict(
@@ -228,10 +232,14 @@ CLAIMS['C13'] = dict(
          "order of the style. Reader side: the decoding statements of load_lmpdat (style switch, get_types_tups) are executed on token arrays "
          "carrying exactly what the writer was proved to emit; proved for both styles and all combinations of empty / non-empty sections that "
          "reading back yields the structure's type ids, molecule groups, charges, positions and every term with its type and atoms "
-         "(decode(encode(item)) == item: column order and 1-based / 0-based shifts agree). The line reader (sections, comments, str.split), "
-         "coefficient strings token for token, masses / labels and the byte-identical rewrite are only checked with a stated bound: the text is "
-         "parsed by an independent reader, re-read with mofun and re-written to a fixed point (105 generated files quick, both styles, contiguous "
-         "and sparse molecule ids, partly tilted and 1e-5 tilts).",
+         "(decode(encode(item)) == item: column order and 1-based / 0-based shifts agree). The body of the reader's line loop is proved as a "
+         "transition relation from an arbitrary reader state on an arbitrary line (str operations uninterpreted): headers open their section, blank "
+         "lines end it unless they follow the header, a record adds exactly one entry computed from that line's own tokens and comment to the list(s) "
+         "of the current section and to no other, box / tilt lines set their own cell numbers. The format dispatch of Atoms.load / Atoms.save is "
+         "proved as a call-trace contract (explicit type before extension, keywords passed through, one reader / writer call on the handle of the "
+         "given file or path). The characters of the text (tokenisation, number formatting), whole-file composition and the byte-identical rewrite "
+         "are only checked with a stated bound: the text is parsed by an independent reader, re-read with mofun and re-written to a fixed point "
+         "(~180 generated files quick, both styles, contiguous and sparse molecule ids, partly / strongly tilted and 1e-5 tilts, mixed comments).",
     note="Format strings and str.split are not interpreted: the bridge 'the numeric tokens of a record line are the numbers formatted into it' is an "
          "assumption (exercised by the bounded stage); np.array(dtype=int) exact on integral columns; A2.",
     technique='contract-based deductive verification of the writer records and of the reader decoding statements with a record-level round-trip lemma (z3) + bounded round trip with an independent reader')
@@ -245,7 +253,9 @@ CLAIMS['C15'] = dict(
          "coordinates to 4 decimals (fractional = positions.dot(inv(cell)) row-wise) and charge in atom order, a bond / angle / torsion loop "
          "exactly when such terms exist, row k naming the labels of the atoms of term k, torsions = dihedrals followed by impropers. Reader: the "
          "label -> index decoding statements of load_p1_cif, run on the columns the writer was proved to add, return bonds, angles and torsions "
-         "between the same atoms in order (record-level round trip). Label distinctness, extra columns, uncertainties, PyCifRW and the "
+         "between the same atoms in order (record-level round trip). cell_abc_alpha_beta_gamma: a, b, c are computed from cell rows 0, 1, 2 and alpha, "
+         "beta, gamma from rows (1,2), (0,2), (0,1) (data flow; the formula is bounded). Format dispatch of Atoms.load / Atoms.save: call-trace "
+         "contract shared with C13 / C16. Label distinctness, extra columns, uncertainties, PyCifRW and the "
          "text-level rewrite are only checked with a stated bound: write -> read -> compare -> rewrite on ~70 generated structures (3 cells, "
          "coordinates inside / outside / on the boundary, explicit types sharing an element, all term kinds and single kinds, extra columns), "
          "comparison with ase.io.read, uncertainties in parentheses, 26 space-group names.",
